@@ -643,6 +643,8 @@ func (u *Unit) specCall(st *State, e *SExpr, env *SpecEnv, q *bool) *Val {
 			cond = tAnd(cond, app("distinct", r, m.S))
 		}
 		return boolVal(fmt.Sprintf("(forall ((%s Int)) (=> %s (and (= (select %s %s) (select %s %s)) (= (select %s %s) (select %s %s)))))", r, cond, cd, r, od, r, cv, r, ov, r))
+	case "counter": // counter(c): current value of an *xsync.Counter
+		return intVal(ev(0).S)
 	case "sameSlice": // sameSlice(a, b): same contents and length
 		a, b := ev(0), ev(1)
 		return boolVal(tAnd(tEq(a.Arr, b.Arr), tEq(a.Len, b.Len)))
